@@ -60,9 +60,20 @@ fn render_variant(doc: &Doc, script: &Option<String>, t: &mut Tape) -> Rendered 
         st.flip_initial.push(f);
     }
     for _ in 0..nd {
-        let k = t.below(3) as u8;
+        // 0 as written, 1 '.', 2 '.*', 3.. repeated / mixed redundant suffixes
+        let k = match t.below(8) {
+            0..=2 => 0,
+            3 => 1,
+            4 => 2,
+            5 => 3,
+            6 => 4,
+            _ => 5,
+        } as u8;
         if k > 0 {
             kinds.push("descriptor_spelling");
+        }
+        if k > 2 {
+            kinds.push("descriptor_repeated_suffix");
         }
         st.descriptor_spelling.push(k);
     }
@@ -163,7 +174,7 @@ impl Check for C04 {
     }
     fn rule(&self) -> String {
         "full-grammar documents (states/parallel/final/history, all transition forms, onentry/onexit/initial/finalize bodies with nested if/elseif/else, foreach, assign (attribute and child text), raise, log, script, send with every attribute, param, content, cancel, data (expr and child text), donedata, invoke) \
-         with opaque expression texts that need escaping (<, >, &, quotes, non-ASCII), each rendered twice with independent lexical choices (whitespace, comments, quote style, attribute order, character/entity references, CDATA, namespace prefix, start/end tag for empty elements, initial attribute vs <initial>, descriptor spelling e / e. / e.*, XInclude of text fragments). \
+         with opaque expression texts that need escaping (<, >, &, quotes, non-ASCII), each rendered twice with independent lexical choices (whitespace, comments, quote style, attribute order, character/entity references, CDATA, namespace prefix, start/end tag for empty elements, initial attribute vs <initial>, descriptor spelling e / e. / e.* / e.. / e.*. / e..*, XInclude of text fragments). \
          Oracle: (a) by-name dump of the parsed model == dump computed from the AST, (b) the two renderings give equal dumps, (c) parsing is deterministic, no reader panic. \
          Non-trivial = the two renderings together use >= 3 lexical variation kinds and the document has a forward reference or a nested if/elseif/else or foreach; distinct = hash of both texts."
             .into()
